@@ -106,8 +106,9 @@ def vm_validate(ck, progs, njobs=10, maxstr=1000000, maxbytes=1000000, tag="vm",
             runs.append(o["run"])
     if not runs:
         return out
-    njobs = max(1, min(njobs, (len(runs) + 19) // 20))
-    batches = [runs[i::njobs] for i in range(njobs)]
+    # at most ~400 runs per TLC process (the recorded events are held in memory as one TLA+ value), njobs processes at a time
+    nb = max(1, min(njobs, (len(runs) + 19) // 20), (len(runs) + 399) // 400)
+    batches = [runs[i::nb] for i in range(nb)]
     cfg = VM_CFG % (maxstr, maxbytes)
 
     def job(ib):
@@ -118,7 +119,7 @@ def vm_validate(ck, progs, njobs=10, maxstr=1000000, maxbytes=1000000, tag="vm",
             raise vlib.Infra("TengoVM machine invariant %s violated:\n%s" % (r.violated, r.stdout[-3000:]))
         return r
     best = {}
-    for r in vlib.parallel(job, list(enumerate(batches)), nproc=njobs):
+    for r in vlib.parallel(job, list(enumerate(batches)), nproc=min(njobs, len(batches))):
         for o in r.tagged("VMTRACE"):
             b = best.get(o["id"])
             if b is None or (o["ok"] and not b["ok"]) or (o["ok"] == b["ok"] and o["consumed"] > b["consumed"]):
